@@ -61,11 +61,13 @@ class _Coop(ast.NodeTransformer):
     def stmt(self, s):
         if isinstance(s, (ast.FunctionDef, ast.ClassDef)): return [s]
         if isinstance(s, ast.AugAssign) and self._shared(s.target):
+            # x.a op= v  is  t = x.a; t op= v (in place for mutable objects, exactly as the interpreter does it); x.a = t
             t = self._tmp()
             tgt_load = ast.parse(ast.unparse(s.target), mode="eval").body
-            load = ast.Assign([ast.Name(t, ast.Store())], ast.BinOp(tgt_load, s.op, s.value))
+            load = ast.Assign([ast.Name(t, ast.Store())], tgt_load)
+            inplace = ast.AugAssign(ast.Name(t, ast.Store()), s.op, s.value)
             store = ast.Assign([s.target], ast.Name(t, ast.Load()))
-            return [self._rewrite_calls(ast.copy_location(load, s)), self._y(s), ast.copy_location(store, s)]
+            return [ast.copy_location(load, s), self._rewrite_calls(ast.copy_location(inplace, s)), self._y(s), ast.copy_location(store, s)]
         if isinstance(s, ast.Assign) and any(self._shared(t) for t in s.targets) and self._reads(s.value):
             t = self._tmp()
             load = ast.Assign([ast.Name(t, ast.Store())], s.value)
